@@ -97,7 +97,7 @@ theorem tie_QuickMatch (g : Gen.Router) (rt : RouterM) (h : OptsRel g rt.opts) (
       .ok ((quickMatch rt m p).2, absRes (quickMatch rt m p).1) := by
   obtain ⟨hs, hi, hf, hn⟩ := h
   unfold Gen.Router.QuickMatch quickMatch
-  simp only [tie_formatPath, C11_table_normaliser, hs, hi, hf, hn, bind, Except.bind, pure, Except.pure]
+  simp only [Id.run, GoRt.idPure, GoRt.idBind, tie_formatPath, C11_table_normaliser, hs, hi, hf, hn, bind, Except.bind, pure, Except.pure]
   cases hint : rt.opts.intercept
   case' nil =>
     simp only [bne_self_eq_false, Bool.false_eq_true, if_false, List.isEmpty_nil, if_true]
